@@ -1,11 +1,11 @@
-(* Obligation C10/full_val_decomp.  Statement as printed by Coq from Inferno.C10.KernelProofs; proof by reference.
+(* Obligation C10/full_val_decomp.  Statement as printed by Coq from Inferno.C10.KernelAlgebra; proof by reference.
    This file contains nothing else, so the statement cannot be weakened quietly. *)
 From Coq Require Import List ZArith Bool Arith Reals Lra Lia Permutation.
-From Inferno Require Import Base.Num Base.NumR Gen.Bounding C10.Updater C10.KernelProofs C10.AccProofs C10.OrderProofs C10.WorldProofs C10.UpdateProofs C10.InterleaveProofs.
+From Inferno Require Import Base.Num Base.NumR Gen.Bounding C10.Updater C10.KernelAlgebra.
 Import ListNotations.
 Open Scope R_scope.
 Theorem full_val_decomp : forall (k : fullk RN) (mx mn : option (T RN)) (x p n : T RN),
   full_typeerr RN k mx mn = false ->
   full_val RN k mx mn x p n = full_upper k mx mn x p - full_lower k mx mn x n.
-Proof. exact (@Inferno.C10.KernelProofs.full_val_decomp). Qed.
+Proof. exact (@Inferno.C10.KernelAlgebra.full_val_decomp). Qed.
 Print Assumptions full_val_decomp.
